@@ -63,26 +63,49 @@ def resolve_virtual(prog, cls, name, sig):
     return None, None
 
 
+_REG_CACHE = {}
+
+
 def registrations(prog, cls):
-    """Registered parameters of a catalogue class: walks the constructor(s) of cls and
-    its bases for register_var / register_vec calls.
-    returns list of dicts {kind:'var'|'vec', name, path (member access path from this), node, fn}"""
+    """Registered parameters of a catalogue class, in registration order, obtained by forward substitution of the
+    default constructor with register_var / register_vec kept opaque (so table-driven and functor-driven registration
+    are followed, constant-trip loops unrolled).
+    returns list of dicts {kind:'var'|'vec', name (None when not a literal), path (['this', ...] or None), node:{'l':loc}, where}"""
+    key = (id(prog), cls)
+    if key in _REG_CACHE:
+        return _REG_CACHE[key]
+    from . import terms
     out = []
-    from .ast import str_value, member_path
-    for r in prog.base_chain(cls):
-        for f in prog.methods_of(r):
-            if not f.get('ctor'):
-                continue
-            for c in calls(f.body):
-                if c.get('n') in ('register_var', 'register_vec') and c.get('rec', '').startswith('MASA::manufactured_solution<'):
-                    nm = str_value(c['args'][0])
-                    tgt = strip(c['args'][1], casts=True)
-                    if c['n'] == 'register_var':
-                        if tgt.get('k') == 'un' and tgt['op'] == '&':
-                            path = member_path(tgt['e'])
-                        else:
-                            path = None
-                    else:
-                        path = member_path(tgt)
-                    out.append({'kind': 'var' if c['n'] == 'register_var' else 'vec', 'name': nm, 'path': path, 'node': c, 'fn': f})
+    ctors = [f for f in prog.methods_of(cls) if f.get('ctor') and len(f.params) == 0]
+    if not ctors:
+        _REG_CACHE[key] = out
+        return out
+    scalar = 'long double' if '<long double' in cls else 'double'
+    E = terms.Evaluator(prog, dyn_class=cls, scalar=scalar, opaque=('register_var', 'register_vec', 'init_var'))
+    outs = E.run(ctors[0])
+    if len(outs) != 1:
+        raise AnalysisBroken('constructor of %s has %d paths' % (cls, len(outs)))
+
+    def flat(evs):
+        for e in evs:
+            if e[0] == 'loop':
+                for k_, c_, sub in e[1][1]:
+                    for x in flat(sub):
+                        yield x
+            else:
+                yield e
+    for e in flat(outs[0].events):
+        if e[0] != 'call' or not e[1][0].endswith(('::register_var', '::register_vec')):
+            continue
+        kind = 'var' if e[1][0].endswith('::register_var') else 'vec'
+        args = e[1][1]
+        nm = args[0][1] if args and args[0][0] == 'str' else None
+        tgt = args[1] if len(args) > 1 else ('unk', '')
+        if tgt[0] == 'addr':
+            tgt = tgt[1]
+        path = None
+        if tgt[0] == 'sym' and not tgt[1].startswith(('global:', 'const:', 'fn:', 'this:', '@')):
+            path = ['this'] + tgt[1].split('.')
+        out.append({'kind': kind, 'name': nm, 'path': path, 'node': {'l': e[2]}, 'where': e[2], 'fn': ctors[0]})
+    _REG_CACHE[key] = out
     return out
